@@ -25,7 +25,7 @@ for spec in sys.argv[2:]:
         res[p] = {'exit': out.returncode, 'first_violation': lines[0][:300] if lines else None}
         print(mid, p, out.returncode, (lines[0][:150] if lines else ''), flush=True)
     sh('git', '-C', WT, 'checkout', '-q', '--', '.')
-    meta = {'id': mid, 'breaks_property': (json.load(open('/tmp/mut/r3map.json')).get(mid) if mid.startswith(('R3-','R4-','R5-','R6-','R7-')) else (mid[3:6] if mid.startswith('R2-') else mid[:3])), 'source': 'independent sub-agent given only the property text and a scratch worktree',
+    meta = {'id': mid, 'breaks_property': (json.load(open('/tmp/mut/r3map.json')).get(mid) if mid.startswith(('R3-','R4-','R5-','R6-','R7-','R8-')) else (mid[3:6] if mid.startswith('R2-') else mid[:3])), 'source': 'independent sub-agent given only the property text and a scratch worktree',
             'needs_to_manifest': open(os.path.join(dst, 'notes.txt')).read().strip(),
             'confirmed': {'demo_exit_without_patch': d0, 'demo_exit_with_patch': d1, 'test_suite_with_patch': t},
             'checks_run': 'quick tier of %s against a scratch worktree with the patch applied (PYTHONPATH override), VERIF_SEED default' % ', '.join(props),
